@@ -275,7 +275,8 @@ def run(repo, res):
 
 
 MUTANTS = [
-    dict(name="R2 product result is a continuous variable", module="minor", expect=["C04.R11", "C04.R12"],
+    # equivalent: a continuous result in [0, inf) between `<= each binary factor` and `>= sum - (n - 1)` still equals the product
+    dict(name="benign: product result declared as a continuous variable", module="minor", kind="benign",
          old='                    vtype="B",\n                    name=f"MUL_K_', new='                    name=f"MUL_K_'),
     dict(name="R1 count side dropped", module="minor", expect=["C04.R11", "C04.R12"],
          old='        model.addConstr(expr >= cnt, name=f"CCNT_{sa.major}_2")\n', new=""),
